@@ -218,7 +218,8 @@ def replay(a):
     elif k == "ws_ref1":
         case_ws_ref(acc, a)
     elif k == "seq1":
-        case_seq(acc, a["tkind"], a["role"], a["sid"], a["seq"], a["cuts"], a.get("with_hs", False))
+        case_seq(acc, a["tkind"], a["role"], a["sid"], a["seq"], a["cuts"], a.get("with_hs", False),
+                 burst=bool(a.get("burst")))
     elif k == "corrupt1":
         case_corrupt(acc, a)
     elif k == "pair1":
@@ -888,7 +889,10 @@ def job_seq(a, acc):
                         "sequences": len(seqs), "segmentations": nseg})
 
 
-def case_seq(acc, tkind, role, sid, seq, cuts, with_hs):
+def case_seq(acc, tkind, role, sid, seq, cuts, with_hs, burst=None):
+    if burst is None and acc.fw == "aio" and cuts and not with_hs:
+        # asyncio: the same segmentation once more with all reads arriving in ONE loop iteration
+        case_seq(acc, tkind, role, sid, seq, cuts, with_hs, burst=True)
     from mc.core import cut
     from harness import wamp_l2 as L
     from ref import rawsocket as R
@@ -898,7 +902,7 @@ def case_seq(acc, tkind, role, sid, seq, cuts, with_hs):
     stream, bounds, exp = build_stream(tkind, role, sid, seq)
     tag = "%s-%s|%s" % ("rawsocket" if tkind == "rs" else "websocket", role, fw)
     rarg = {"kind": "seq1", "tkind": tkind, "role": role, "sid": sid, "seq": seq, "cuts": cuts,
-            "with_hs": with_hs}
+            "with_hs": with_hs, "burst": bool(burst)}
     if with_hs:
         ep = L.Endpoint(tkind, role, [sid])
         if tkind == "ws":
@@ -914,9 +918,11 @@ def case_seq(acc, tkind, role, sid, seq, cuts, with_hs):
         segs = cut(stream, cuts)
     ep.take()
     for s_ in segs:
-        if not ep.feed(s_):
+        if not ep.feed(s_, settle=not burst):
             break
     ep.settle()
+    if burst:
+        acc.inc("burst_reads|%s" % tkind)
     got = ep.maker.messages()
     closing = ep.closing()
     esc = ep.escapes()
